@@ -22,13 +22,17 @@ theorem read2_append_of_ok (t : List Nat) : ∀ (n : Nat) (rest : List Nat) (i p
       · simp at h
       · rename_i hc
         rw [if_neg hc]
-        cases h2 : read2 n rest' (i + 1) e with
-        | ok r =>
-          rw [h2] at h
-          rw [read2_append_of_ok t n rest' (i + 1) e r h2]
-          exact h
-        | err e' => rw [h2] at h; simp at h
-        | panic s' => rw [h2] at h; simp at h
+        split at h
+        · simp at h
+        · rename_i hc2
+          rw [if_neg hc2]
+          cases h2 : read2 n rest' (i + 1) e with
+          | ok r =>
+            rw [h2] at h
+            rw [read2_append_of_ok t n rest' (i + 1) e r h2]
+            exact h
+          | err e' => rw [h2] at h; simp at h
+          | panic s' => rw [h2] at h; simp at h
     | [], h => simp [read2] at h
     | [_], h => simp [read2] at h
     | [_, _], h => simp [read2] at h
